@@ -26,6 +26,13 @@ class Suspend:
         return self.v
 
 
+def relay(values):
+    """an untraced sub-generator: a traced generator that delegates to it with `yield from` yields these values itself"""
+    for v in values:
+        yield v
+    return len(values)
+
+
 def deco(f):
     @functools.wraps(f)
     def wrapper(*a, **k):
